@@ -74,6 +74,12 @@ def ctx_variants(params: List[Dict[str, Any]], flavour_async: bool) -> Iterator[
     yield {'params': params, 'flavour': vw, 'ctx': 'none'}
     yield {'params': params, 'flavour': vw, 'ctx': 'view', 'self_name': 'this'}
     yield {'params': params, 'flavour': vw, 'ctx': 'none', 'static': True}
+    # the view gets the context through its constructor (registered as context='context'); a METHOD parameter that happens to be
+    # called 'context' too is an ordinary client parameter
+    vnamed = [p for p in params if p['kind'] in ('PK', 'KO')]
+    if vnamed:
+        first_named = vnamed[0]['name']
+        yield {'params': [({**p, 'name': 'context'} if p['name'] == first_named else p) for p in params], 'flavour': vw, 'ctx': 'view'}
     # a client parameter whose name is contained in the context parameter's name ('t' in 'ctx')
     renamed = [({**p, 'name': 't'} if i == 0 and p['kind'] in ('PK', 'KO') else p) for i, p in enumerate(params)]
     if renamed != params:
@@ -177,7 +183,7 @@ class C04(Check):
         "at each valid positional position and as keyword-only; first positional with positional=True; class based view with and without "
         "constructor context) x dispatcher (sync: functions and views; async: coroutines and async views), crossed with params absent, all "
         "positional lists of length 0..5 and all named mappings over every subset of (parameter names + 'zz' + the context name); (b) "
-        "Hypothesis: signatures of up to 4 parameters with JSON-scalar defaults and pooled JSON values as arguments; views whose instance parameter is named 'this'; public static methods of views; a client parameter whose name is contained in the context parameter's name; client parameters named like the library's own internals (signature, method, params, request, cls, kwargs ...); "
+        "Hypothesis: signatures of up to 4 parameters with JSON-scalar defaults and pooled JSON values as arguments; views whose instance parameter is named 'this'; public static methods of views; view methods with an ordinary parameter named like the view's registered context name; a client parameter whose name is contained in the context parameter's name; client parameters named like the library's own internals (signature, method, params, request, cls, kwargs ...); "
         "(c) histories of 6..14 short-lived dispatchers each serving a freshly created function that is dropped afterwards (every step judged like a single case). Oracle: a twin function "
         "with the same signature minus the context is called with the same list/mapping: TypeError => -32602 and empty execution log; "
         "otherwise success whose result is the scripted return value and one log entry whose arguments equal the twin's locals(); the "
@@ -186,7 +192,7 @@ class C04(Check):
     )
     assumptions = [
         "'a direct Python call would bind' is decided by actually calling a generated twin function",
-        "view methods do not name a parameter after the view's context; positional=True only with the context parameter first",
+        "positional=True only with the context parameter first",
         "KF-C04-1 (variadic / positional-only parameters are passed by name) is muted only for cases where a variadic parameter "
         "receives a value or a positional-only parameter is supplied; totality and context clauses stay active there",
     ]
